@@ -97,7 +97,7 @@ func RequestLayout(sp *spec.Spec, svc *spec.Service, m *spec.Method) *Layout {
 		}
 		return "", false
 	}
-	pathVars := PathVars(h.Path)
+	pathVars := PathVars(l.FullPath) // base paths may bind parameters too
 	if e.K != spec.KObject {
 		l.Whole = true
 		p := &Place{Attr: "", T: m.Payload, Req: "required", Loc: spec.LocBody}
